@@ -51,6 +51,10 @@ func pathDocs() []func() jsonline.Row {
 		},
 		parse(`{}`),
 		parse(`{"a":1}`),
+		// nested objects held as Go maps (Set / Import / CreateRow given a map): not rows, so a path stops there
+		func() jsonline.Row {
+			return sub("m", map[string]interface{}{"p": json.Number("1"), "q": map[string]interface{}{"r": json.Number("2")}}, "a", sub("b", map[string]interface{}{"c": json.Number("3")}), "s", json.Number("1"))
+		},
 		// arrays that do not start with an object: null, a scalar, a nested array first
 		parse(`{"a":[null,{"b":1},{"b":2}],"arr":[7,{"k":{"v":1}},"x",{"k":{"v":2}}],"e":[[{"f":0}],{"f":3},null,{"f":{"g":4}}],"s":[true],"n":[null]}`),
 		// a long array (longer than any path): objects, scalars, nulls, nested arrays and objects lacking the key
@@ -256,7 +260,7 @@ func useRow(row jsonline.Row) string {
 func genC17(cw *caseWriter, seed uint64, tier string) {
 	r := newRng(seed)
 	// whatever an importer hands back for a bad line — (nil, err) or anything else — can be used without a crash
-	badLines := []string{`{"a":`, `{"a":1} x`, `[1]`, ``, `{"a":"notanumber"}`, `{`, "{\"a\":1}\n{\"a\":\n{\"a\":3}"}
+	badLines := []string{`}`, `]`, `,`, `:`, `}}`, ` }`, `"`, `\\`, "\x00", `{"a":`, `{"a":1} x`, `[1]`, ``, `{"a":"notanumber"}`, `{`, "{\"a\":1}\n{\"a\":\n{\"a\":3}"}
 	for _, bl := range badLines {
 		for _, typed := range []bool{false, true} {
 			line, ty := bl, typed
